@@ -103,7 +103,7 @@ def jobs_for(chk):
         for fast in (0, 1):
             for fresh in (0, 1, 2, 3):
                 for oncb in (0, 1):
-                    for scr in (SMALL_SCRIPTS if (oncb == 0 or chk.thorough) else SMALL_SCRIPTS[:5]):
+                    for scr in (SMALL_SCRIPTS if ((oncb == 0 and fresh in (0, 3)) or chk.thorough) else SMALL_SCRIPTS[:5] if oncb == 0 else SMALL_SCRIPTS[:3]):
                         ex.append(("small", (fast, fresh, oncb, scr, lay), 1))
         # panics: creator (during the first build, during a rebuild, after a request from inside), freshness callback,
         # on-should-reload callback (in request_reload / in should_reload)
@@ -115,10 +115,10 @@ def jobs_for(chk):
     for lay in L22:
         nth = len(lay)
         for fast in (0, 1):
-            for fresh in ((0, 3) if nth >= 4 else (0, 2, 3) if (nth == 3 and not chk.thorough) else (0, 1, 2, 3)):
-                for scr in (SCRIPTS22 if (nth < 3 or chk.thorough) else (SCRIPTS22[:3] if fresh == 0 else SCRIPTS22[:1]) if nth >= 4 else SCRIPTS22[:4]):
+            for fresh in ((0, 3) if nth >= 4 else (0, 3) if (nth == 3 and not chk.thorough) else (0, 2, 3) if not chk.thorough else (0, 1, 2, 3)):
+                for scr in (SCRIPTS22 if chk.thorough else SCRIPTS22[:4] if nth < 3 else (SCRIPTS22[:3] if fresh == 0 else SCRIPTS22[:1]) if nth >= 4 else SCRIPTS22[:3]):
                     ex.append(("2+2", (fast, fresh, 1 if (fresh == 3 and scr == []) else 0, scr, lay), 4 if nth >= 4 else 1))
-        for (fast, fresh, oncb, scr) in ((0, 0, 0, [0, 4]), (1, 0, 0, [4, 0]), (0, 5, 0, []), (0, 0, 2, [])) + (((1, 3, 3, [0, 6]), (0, 6, 0, [2])) if nth < 4 else ()):
+        for (fast, fresh, oncb, scr) in (((0, 0, 0, [0, 4]), (0, 5, 0, [])) if (nth >= 4 and not chk.thorough) else ((0, 0, 0, [0, 4]), (1, 0, 0, [4, 0]), (0, 5, 0, []), (0, 0, 2, []))) + (((1, 3, 3, [0, 6]), (0, 6, 0, [2])) if nth < 4 else ()):
             ex.append(("2+2", (fast, fresh, oncb, scr, lay), 4 if nth >= 4 else 1))
     if chk.thorough:
         for lay in L33_EXH:
@@ -338,13 +338,87 @@ def readable(sample, note=None):
 
 
 # ----------------------------------------------------------------------------------------------
+# real file-system leg: file-change notifications are reload requests delivered by the watcher
+# ----------------------------------------------------------------------------------------------
+FS_KINDS = {1: "in-place write of the template", 2: "another file created in the watched directory", 3: "template deleted",
+            4: "template renamed inside the watched directory", 5: "new version moved in from outside (rename over the template)",
+            6: "editor-style atomic save (temp file, an acquire_env in between, rename over the template)"}
+
+
+def fs_trace(fast, stale):
+    """The abstract history of one fs case in the harness/model event vocabulary: thread 0 acquires, the watcher
+    thread 9 delivers the notification (= a request_reload: same two lock sections), thread 0 acquires again."""
+    ev = [[0, 3, 0, 0, 0, 0], [0, 5, 0, 0, 0, 0], [0, 7, 1, 0, 0, 0], [0, 8, 1, 1, 0, 0], [0, 10, 0, 1, 0, 0],
+          [9, 1, 1, 0, 0, 0], [9, 2, 0, -2, 0, 0], [0, 3, 0, 0, 0, 0]]
+    if stale:
+        ev += [[0, 4, 0, 1, 0, 0], [0, 10, 0, 1, 0, 0]]
+    elif fast:
+        ev += [[0, 4, 0, 0, 0, 0], [0, 5, 0, 0, 0, 0], [0, 6, 0, 1, 1, 1], [0, 10, 0, 1, 1, 1]]
+    else:
+        ev += [[0, 4, 0, 0, 0, 0], [0, 5, 0, 0, 0, 0], [0, 6, 0, 0, 0, 0], [0, 7, 2, 0, 0, 0], [0, 8, 1, 2, 1, 1], [0, 10, 0, 2, 1, 1]]
+    return [fast, 0, 0, len(ev)] + [x for e in ev for x in e]
+
+
+def fs_leg(chk, model, only=None):
+    """Returns dict(results, violations=[(what, replay)], note)."""
+    out = {"results": [], "violations": [], "note": None}
+    ok, log_ = cargo_build(["c20_fs"], release=True, features=("watchfs",))
+    if not ok:
+        out["violations"].append(("file-system leg does not build against the current repo tree (feature watch-fs)",
+                                  {"theorem_or_correspondence": "build of harness/src/bin/c20_fs.rs with feature watchfs", "log": log_[-1500:]}, True))
+        return out
+    cases = [only] if only else [[k, f] for f in (0, 1) for k in sorted(FS_KINDS)]
+    d = os.path.join(vlib.CACHE, "c20fs")
+    os.makedirs(d, exist_ok=True)
+    env = dict(vlib.ENV)
+    env["MJVERIF_FS_DIR"] = d
+
+    def run(cs, tmo_ms):
+        env["MJVERIF_FS_TIMEOUT_MS"] = str(tmo_ms)
+        return run_lines([bin_path("c20_fs", True)], cs, timeout=120 + len(cs) * tmo_ms // 300, env=env)
+    res = run(cases, 5000)
+    # the model's side: each delivered event = a request; the expected history must be a run that satisfies the spec
+    exp = [fs_trace(c[1], False) for c in cases]
+    mrun = run_lines([model, "c20"], exp)
+    mspec = run_lines([model, "c20-spec"], exp)
+    for c, r, m, sp in zip(cases, res, mrun, mspec):
+        kind, fast = c
+        if len(r) < 6 or r[0] == "CRASH":
+            out["violations"].append(("file-system leg crashed", {"theorem_or_correspondence": "harness c20_fs", "case": ["fs", kind, fast], "output": r}, True))
+            continue
+        if r[2] in (7, 8):
+            out["note"] = "the file-system watcher could not be set up in this environment (inotify unavailable?): watcher event filtering NOT checked in this run"
+            continue
+        if r[2] == 0:
+            # never alarm on a slow machine: once more, with a longer timeout
+            r2 = run([c], 12000)[0]
+            if len(r2) >= 6 and r2[2] == 1:
+                r = r2 + ["second attempt"]
+        rec = {"change": FS_KINDS[kind], "fast_reload": bool(fast), "visible_after_ms": r[5] if r[2] == 1 else None, "creator_calls": r[3], "template_loads": r[4]}
+        out["results"].append(rec)
+        if m[:1] != [0] or sp != [1, 1, 1]:
+            out["violations"].append(("the expected history of a file-change notification is not a run of the model",
+                                      {"theorem_or_correspondence": "C20.Runner vs fs leg", "case": ["fs", kind, fast], "model": m, "spec": sp}, True))
+        elif r[2] != 1:
+            stale = fs_trace(fast, True)
+            ssp = run_lines([model, "c20-spec"], [stale])[0]
+            out["violations"].append(("no_lost_request violated: a file change (%s) never triggers a reload" % FS_KINDS[kind],
+                                      {"case": ["fs", kind, fast], "change": FS_KINDS[kind], "fast_reload": bool(fast),
+                                       "observed": "the watcher was active, the change was made, acquire_env() polled for 12 s kept handing out the environment created before the change "
+                                                   "(creator calls %d, loads of the template %d)" % (r[3], r[4]),
+                                       "abstract_history": stale, "coq_spec_on_it (no_lost_request guard_excludes no_spurious_rebuild)": ssp,
+                                       "how": "./check C20 --replay <this file>"}, False))
+    return out
+
+
+# ----------------------------------------------------------------------------------------------
 def main():
     chk = Check("C20", "proof")
     chk.cov["trusted_base"] = TRUSTED_COMMON + [
         "hook H3 (cargo feature verif_hooks of minijinja-autoreload): yield points before each lock acquisition and around the creator call; "
         "the scheduler in harness/src/bin/c20.rs (one thread runs at a time, cache-mutex availability tracked from the observed events, notifier-mutex availability = a thread is parked inside "
         "a user callback, blocked-vs-progressed decided from /proc/self/task/<tid>/stat (3 consecutive 'S' readings while the thread has not parked), at most one thread asleep on the notifier mutex, watchdog on every hand-over)",
-        "std::sync::Mutex is a mutex; behaviour of the `notify` crate (file watcher calls the same flag-setting section as request_reload) is not exercised",
+        "std::sync::Mutex is a mutex; the `notify` crate / inotify deliver the events of the six kinds of change exercised by the file-system leg (other platforms' backends not covered)",
         "Print Assumptions: all theorems closed under the global context (no axioms)"]
     chk.assumptions = [
         "modelled: AutoReloader::acquire_env, EnvironmentGuard, Notifier::{request_reload, should_reload, fast_reload, prepare_and_mark_reload, restore_reload} at lock-acquisition granularity; "
@@ -376,7 +450,14 @@ def main():
     if chk.replay:
         rp = json.load(open(chk.replay))
         case = rp.get("replay", {}).get("case")   # replays without a schedule (build / proof problems): run the whole check again
-    if case:
+    fs_only = None
+    if case and case[0] == "fs":
+        fs_only = [int(case[1]), int(case[2])]
+    fs = fs_leg(chk, model, fs_only) if (fs_only or not case) else {"results": [], "violations": [], "note": None}
+    chk.notes["fs_leg_s"] = round(time.time() - chk.t0 - chk.notes["build_s"], 1)
+    if fs_only:
+        exj, saj = [], []
+    elif case:
         for rel in (True, False):
             # the schedule itself, then 3000 seeded random schedules of the same configuration
             i = 5 + case[4]
@@ -403,7 +484,7 @@ def main():
             batch_label[0] = None
         for prof in ("release", "debug"):
             for (label, cfg, parts) in exj:
-                if prof == "debug" and (label != "small" or (cfg[2] == 1 and not chk.thorough)):
+                if prof == "debug" and (label != "small" or ((cfg[2] == 1 or cfg[1] in (1, 2)) and not chk.thorough)):
                     continue
                 base = cfg_ints(*cfg)
                 if parts == 1:
@@ -468,7 +549,9 @@ def main():
             broken.append(r["broken"])
         if len(samples) < 40:
             samples += r["samples"][:1]
-    chk.cov["evaluations"] = runs
+    chk.cov["evaluations"] = runs + len(fs["results"])
+    chk.cov["fs_leg"] = {"what": "real inotify watcher (feature watch-fs): one kind of change per case, then acquire_env polled until the change is visible",
+                         "cases": fs["results"], "note": fs["note"]}
     chk.cov["distinct_nontrivial"] = len(nontriv)
     chk.cov["distinct_traces"] = len(distinct)
     chk.cov["rule"] = ("every maximal schedule (at lock-acquisition granularity, user callbacks preemptible with the notifier mutex held, incl. speculative lock attempts of one other thread during a callback) of each listed thread configuration is executed on the real AutoReloader "
@@ -495,6 +578,8 @@ def main():
         kok = k1 is not None and k2 is not None and all(k1[i] == kern[i][1] and k2[i] == kern[i][2] for i in range(len(kern)))
         chk.cov["kernel_crosscheck"] = {"cases": len(kern), "agree": bool(kok)}
     # ---- verdicts --------------------------------------------------------------------------
+    for (what, replay, nfi) in fs["violations"]:
+        chk.violation(what, replay, nfi)
     for b in broken[:3]:
         chk.violation("scheduler harness broken (hang, deadlock or crash) - not a pass", {"theorem_or_correspondence": "harness c20 watchdog", "detail": b}, True)
     seen = set()
@@ -518,7 +603,7 @@ def main():
             chk.violation("kernel evaluation disagrees with extracted model", {"theorem_or_correspondence": "vm_compute cross-check of extraction"}, True)
         if not proofs_ok:
             chk.violation("proof obligations of C20 do not check", {"theorem_or_correspondence": chk.proof["problems"]}, True)
-        if runs == 0:
+        if runs == 0 and not fs_only:
             chk.violation("no schedule was executed", {"theorem_or_correspondence": "harness c20 produced no runs"}, True)
     chk.finish()
 
